@@ -217,6 +217,8 @@ class TermEval:
 
     def _e_Attribute(self, e, env):
         d = dotted(e)
+        if d and d in env and d.count('.') == 1:
+            return env[d]
         if d and d in self.consts:
             return self.consts[d]
         if d and d.split('.', 1)[-1] in self.consts and d.count('.') == 1:
@@ -716,7 +718,13 @@ class TermEval:
             if isinstance(t.value, ast.Name):
                 env[t.value.id] = Opaque(f'?{t.value.id}')
             return True
-        return True      # attribute stores do not matter to local terms
+        if isinstance(t, ast.Attribute) and isinstance(t.value, ast.Name) and t.value.id in env \
+                and t.value.id not in ('self', 'cls', 'clz'):
+            # a field of a local object (what an inlined constructor leaves: signer.sig = hmac.new(..)) is a local
+            # of its own
+            env[f'{t.value.id}.{t.attr}'] = v
+            return True
+        return True      # other attribute stores do not matter to local terms
 
     def _havoc(self, stmts, env: dict) -> None:
         for st in stmts:
